@@ -234,6 +234,30 @@ pub fn c11(out: &mut Out, thorough: bool) {
     let extra = positions(&mut rng, if thorough { 1500 } else { 160 });
     ps.extend(extra.into_iter().skip(60));
     mating_positions(&mut rng, if thorough { 300 } else { 40 }, &mut ps);
+    // roots with exactly one or two legal moves (forced replies): the bookkeeping of the previous best
+    // move across deepening passes has no other move to fall back on
+    {
+        let mut pool: Vec<Tagged> = Vec::new();
+        mating_positions(&mut rng, if thorough { 600 } else { 120 }, &mut pool);
+        retro_mates(&mut rng, if thorough { 300 } else { 60 }, &mut pool);
+        let want = if thorough { 400 } else { 50 };
+        let mut got = 0;
+        'outer: for t in pool.iter() {
+            for m in t.board.legals().collect::<Vec<_>>() {
+                if let Some(nb) = t.board.move_new(m) {
+                    let n = nb.legals().count();
+                    if n == 1 || (n == 2 && rng.chance(1, 3)) {
+                        ps.push(Tagged { board: nb, tag: if n == 1 { "one-legal-move" } else { "two-legal-moves" } });
+                        got += 1;
+                        if got >= want {
+                            break 'outer;
+                        }
+                        break;
+                    }
+                }
+            }
+        }
+    }
     let cap = if thorough { 20_000 } else { 1_500 };
     for (i, t) in ps.iter().enumerate() {
         // small positions can afford deeper passes
@@ -318,6 +342,8 @@ pub fn c13(out: &mut Out, thorough: bool) {
     }
     ps.extend(positions(&mut rng, if thorough { 1200 } else { 170 }).into_iter().skip(60));
     mating_positions(&mut rng, if thorough { 200 } else { 20 }, &mut ps);
+    // roots where the decisive move is quiet while captures are on offer as well (the root tries captures first)
+    retro_mates(&mut rng, if thorough { 400 } else { 60 }, &mut ps);
     let cap = if thorough { 30_000 } else { 3_000 };
     for t in ps.iter() {
         let b = t.board;
@@ -372,6 +398,17 @@ pub fn c13(out: &mut Out, thorough: bool) {
             }
         }
         out.record("mirror-negates-score", compared > 0, format!("expect same {p} mirror {mp} depths-compared={compared}"), verdict);
+        // the score of a completed pass is the plain-minimax value of the root (model side) and the negated
+        // plain-minimax value of the mirrored root (specification side); plain minimax is exponential, so
+        // only the shallow depths of sparse positions are asked for (the capture extension alone makes
+        // depth 0 of a crowded middlegame position intractable without pruning)
+        let men = v.squares.iter().filter(|&&c| c != b'.').count();
+        let maxd: i32 = if men <= 5 { 2 } else if men <= 10 { 1 } else if men <= 16 { 0 } else { -1 };
+        for (d, sc) in by_depth.iter().filter(|(d, _)| (**d as i32) <= maxd) {
+            out.record("pass-score-is-minimax", true, format!("minimax {p} d={d}"), show_score(*sc));
+        }
+        // the facts about the mirrored board the symmetry argument rests on
+        out.record("mirror-facts", true, format!("mirrorchk {p}"), "ok".into());
     }
 }
 
